@@ -272,6 +272,61 @@ pub fn c10(ctx: &Ctx) -> (CheckMeta, Outcome) {
             }));
         }
     }
+    // parameter space: a dispatcher may special-case PARAMETERS (a "fast path" for some moduli): every
+    // Golomb modulus up to 4096 (thorough 65536) plus the neighbours of every power of two, and every
+    // k in 0..=63 of the other parametric codes, each with a small value set around the parameter
+    let bmax: u64 = if ctx.thorough { 65536 } else { 4096 };
+    const PCHUNKS: u64 = 16;
+    for e in End::BOTH {
+        for chunk in 0..PCHUNKS {
+            tasks.push(Box::new(move || {
+                let mut out = Outcome::new();
+                out.cov.configs.insert(format!("{}/param-sweep", e.name()));
+                let mut bs: Vec<u64> = (13..=bmax).filter(|b| b % PCHUNKS == chunk).collect();
+                for i in 12..63u32 {
+                    for d in [-2i64, -1, 0, 1, 2, 64, 320] {
+                        let b = (1u64 << i).wrapping_add(d as u64);
+                        if b > bmax && b % PCHUNKS == chunk {
+                            bs.push(b);
+                        }
+                    }
+                }
+                let mut codes_vals: Vec<(Code, u64)> = vec![];
+                for &b in &bs {
+                    for v in [0, 1, b - 1, b, b + 1, 2 * (b & (u64::MAX >> 3)) + 3, (7 * (b & (u64::MAX >> 3))).wrapping_sub(1)] {
+                        codes_vals.push((Code::Golomb(b), v));
+                    }
+                }
+                if chunk == 0 {
+                    for k in 0..=63u32 {
+                        for v in [0u64, 1, 2, 5, 255, 256, 65535, (1 << 20) + 3, (1u64 << k).wrapping_sub(1), 1u64 << k, (1u64 << k) | 1] {
+                            if k >= 1 {
+                                codes_vals.push((Code::Zeta(k), v));
+                            }
+                            codes_vals.push((Code::Pi(k), v));
+                            codes_vals.push((Code::Rice(k), v));
+                            codes_vals.push((Code::ExpGolomb(k), v));
+                        }
+                    }
+                }
+                for (code, v) in codes_vals {
+                    if !crate::grid::in_domain(code, v) || crate::model::ref_len(code, v) > 600 {
+                        continue;
+                    }
+                    let before = out.violations.len();
+                    run_item(e, code, v, &mut out);
+                    if out.violations.len() > before + 3 {
+                        out.violations.truncate(before + 3);
+                    }
+                    out.cov.add_extra("param_sweep_items", 1);
+                    if out.violations.len() > 30 {
+                        break;
+                    }
+                }
+                out
+            }));
+        }
+    }
     let mut out = run_all(tasks, threads());
     if crate::pool::is_primary() {
         // the statistics wrapper is generic in the number of tracked codes per family: it must stay a
@@ -300,7 +355,7 @@ pub fn c10(ctx: &Ctx) -> (CheckMeta, Outcome) {
     let meta = CheckMeta {
         property: "C10".into(),
         level: "exploration".into(),
-        rule: "the statistics wrapper in eight instantiations of its const parameters (unequal and zero-sized families included) returns the direct method's lengths and values on writes and reads; complete over identifiers (the enumeration value obtained with from_code_const from the constant of the same name must write the direct method's bits): every code named by the 51 code_consts (all aliases) and every Codes variant with parameters 0..=12 plus {17,31,32,63} / large Golomb moduli, x every dispatcher kind (Codes dynamic+static, FuncCodeWriter/Reader, FactoryFuncCodeReader::new().get(), ConstCode<ID> with ID taken from the constant's NAME, CodesStatsWrapper around Codes / Func* / ConstCode, Codes::len, FuncCodeLen, ConstCode::len) x {write, read, len} x both endiannesses x values (dense below 4096 (thorough 65536), every 2^i+-2, step points, maxima); oracle: bytes and returned length written via the dispatcher = those of the direct trait method (PRE bits, codeword, POST bits); value and end position read via the dispatcher = direct method; len = direct len; a dispatcher whose constructor refuses the code is skipped (Err, never another code); evaluations = (code, value, E) items, transitions = dispatcher calls compared; non-trivial = value > 0 of a code that has an identifier constant".into(),
+        rule: "the statistics wrapper in eight instantiations of its const parameters (unequal and zero-sized families included) returns the direct method's lengths and values on writes and reads; complete over identifiers (the enumeration value obtained with from_code_const from the constant of the same name must write the direct method's bits): every code named by the 51 code_consts (all aliases) and every Codes variant with parameters 0..=12 plus {17,31,32,63} / large Golomb moduli, and (parameter sweep, 7-11 values around each parameter) EVERY Golomb modulus up to 4096 (thorough 65536) with the neighbours (-2..+2, +64, +320) of every power of two above and EVERY k in 0..=63 of zeta, pi, Rice and exp-Golomb, x every dispatcher kind (Codes dynamic+static, FuncCodeWriter/Reader, FactoryFuncCodeReader::new().get(), ConstCode<ID> with ID taken from the constant's NAME, CodesStatsWrapper around Codes / Func* / ConstCode, Codes::len, FuncCodeLen, ConstCode::len) x {write, read, len} x both endiannesses x values (dense below 4096 (thorough 65536), every 2^i+-2, step points, maxima); oracle: bytes and returned length written via the dispatcher = those of the direct trait method (PRE bits, codeword, POST bits); value and end position read via the dispatcher = direct method; len = direct len; a dispatcher whose constructor refuses the code is skipped (Err, never another code); evaluations = (code, value, E) items, transitions = dispatcher calls compared; non-trivial = value > 0 of a code that has an identifier constant".into(),
         assumptions: vec!["the direct trait methods are the specification here (their own correctness is C03/C04/C06)".into()],
     };
     (meta, out)
